@@ -117,6 +117,10 @@ def run_all ():
     return ast.unparse(t)
   out = normed_ext("def f(x):\n  return _h(x)\ndef _h(v):\n  return v + 1\n", {'f': ['x'], '<module>': []})
   expect('norm keeps a helper that another file mentions', 'def _h' in out and 'x + 1' in out)
+  out = normed("class K:\n  def f(self, x):\n    tbl = self.handlers\n    for m in x:\n      h = tbl[m]\n      h(self, m)\n", {'K.f': ['self', 'x', 'm', 'h'], '<module>': [], '<class K>': []})
+  expect('norm keeps an attribute alias across calls that receive the owner', 'tbl[m]' in out)
+  out = normed("class K:\n  def f(self, x):\n    tbl = self.handlers\n    for m in x:\n      log.debug(tbl[m])\n", {'K.f': ['self', 'x', 'm'], '<module>': [], '<class K>': []})
+  expect('norm expands an attribute alias when nothing can re-bind it', 'self.handlers[m]' in out)
   # ---- evaluation along paths ----------------------------------------------------------------------------------
   class _M(object):
     name = 'm'; short = 'm'
